@@ -75,8 +75,9 @@ def check_message(text, msg):
 def judge(text):
     from calmjs.parse.parsers.es5 import parse
     from calmjs.parse.exceptions import ECMASyntaxError
-    signal.signal(signal.SIGALRM, _alarm)
-    signal.alarm(10)
+    # CPU-time budget (user time of this process), so that a loaded machine cannot turn a slow parse into "does not terminate"
+    signal.signal(signal.SIGVTALRM, _alarm)
+    signal.setitimer(signal.ITIMER_VIRTUAL, 30)
     old_limit = sys.getrecursionlimit()
     sys.setrecursionlimit(1000)          # CPython's default: what a user of the library runs under (the GX engine raises it)
     try:
@@ -86,13 +87,13 @@ def judge(text):
         except ECMASyntaxError as e:
             return check_message(text, str(e))
         except Timeout:
-            return 'parse does not terminate within 10 s'
+            return 'parse does not terminate within 30 s of CPU time'
         except RecursionError as e:
             return 'RecursionError escapes'
         except Exception as e:
             return '%s escapes from parse(): %s' % (type(e).__name__, str(e)[:100])
     finally:
-        signal.alarm(0)
+        signal.setitimer(signal.ITIMER_VIRTUAL, 0)
         sys.setrecursionlimit(old_limit)
 
 
